@@ -199,7 +199,9 @@ META = {
                 'checker kkt_ok is sound and complete for those conditions; kkt_gap gives a proved bound obj(x)-obj(y) <= B for any placement x and any multipliers; '
                 'the optimum is independent of the constraint order. "IncSolver::solve always returns the optimum" was REFUTED on the faithful model of the loop '
                 'before /repo 676ca34 (C02_solve_optimal_refuted_before_fix; witnesses replayed on the real code, now regression inputs in the corpus); for the '
-                'current loop it is decided per run by the certificate (C02_solve_certified_partial), not proved for all runs.',
+                'current loop it is decided per run by the certificate (C02_solve_certified_partial), not proved for all runs. Proved for all op histories of '
+                'the model (second round): the active constraints of every block form a spanning tree, are tight, block statistics are the sums over the block '
+                '(C02_active_forest_reachable), and the positions solve() returns are feasible for the unflagged constraints (C02_solve_feasible_history).',
         'design_ref': 'DESIGN.md 5.2'},
     'level_note': 'Trusted: Coq kernel; extraction + OCaml driver (its optimum-proposing helpers are unverified but every proposal passes the proved kkt_ok); C++ harness; '
                   'exact-rational model of binary64. Not proved: that solve() reaches a KKT point (tree induction over compute_dfdv not done); termination; '
